@@ -217,3 +217,77 @@ class Grammar:
                 for lab, v in trans[u]:
                     stack.append((v, seq + (lab,)))
         return out
+
+
+# ---- a small PEG evaluator over the grammar data (used on atomic rules only: no implicit whitespace handling)
+_BUILTIN_CLASS = {
+    "ANY": lambda c: True,
+    "ASCII_DIGIT": lambda c: c.isdigit() and c.isascii(),
+    "ASCII_ALPHA": lambda c: c.isalpha() and c.isascii(),
+    "ASCII_ALPHANUMERIC": lambda c: c.isalnum() and c.isascii(),
+    "ASCII_BIN_DIGIT": lambda c: c in "01",
+    "ASCII_OCT_DIGIT": lambda c: c in "01234567",
+    "ASCII_HEX_DIGIT": lambda c: c in "0123456789abcdefABCDEF",
+    "NEWLINE": lambda c: c in "\n\r",
+}
+
+
+def peg_match(g, rule, text):
+    """Does atomic rule `rule` of Grammar g match the whole of `text`? (PEG semantics: ordered choice, greedy repetition)"""
+    def m(e, i, depth=0):
+        if depth > 200:
+            return None
+        k = e["k"]
+        if k == "str":
+            return i + len(e["s"]) if text.startswith(e["s"], i) else None
+        if k == "insens":
+            return i + len(e["s"]) if text[i:i + len(e["s"])].lower() == e["s"].lower() else None
+        if k == "range":
+            return i + 1 if i < len(text) and e["a"] <= text[i] <= e["b"] else None
+        if k == "ident":
+            n = e["s"]
+            if n in g.rules:
+                return m(g.rules[n]["expr"], i, depth + 1)
+            if n == "EOI":
+                return i if i == len(text) else None
+            if n == "SOI":
+                return i if i == 0 else None
+            f = _BUILTIN_CLASS.get(n)
+            if f is None:
+                return None
+            return i + 1 if i < len(text) and f(text[i]) else None
+        if k == "seq":
+            j = m(e["a"], i, depth + 1)
+            return None if j is None else m(e["b"], j, depth + 1)
+        if k == "choice":
+            j = m(e["a"], i, depth + 1)
+            return j if j is not None else m(e["b"], i, depth + 1)
+        if k == "opt":
+            j = m(e["e"], i, depth + 1)
+            return i if j is None else j
+        if k in ("rep", "rep1"):
+            n = 0
+            while True:
+                j = m(e["e"], i, depth + 1)
+                if j is None or j == i:
+                    break
+                i = j
+                n += 1
+            return i if (k == "rep" or n >= 1) else None
+        if k == "repn":
+            n = 0
+            while e["max"] < 0 or n < e["max"]:
+                j = m(e["e"], i, depth + 1)
+                if j is None or j == i:
+                    break
+                i = j
+                n += 1
+            return i if n >= e["min"] else None
+        if k == "pospred":
+            return i if m(e["e"], i, depth + 1) is not None else None
+        if k == "negpred":
+            return i if m(e["e"], i, depth + 1) is None else None
+        if k == "push":
+            return m(e["e"], i, depth + 1)
+        return None
+    return m(g.rules[rule]["expr"], 0) == len(text)
